@@ -65,6 +65,22 @@ PROPS = {
         "level_text": "Every operand pair of the generic Montgomery add/sub/neg/mul/inv/pow code is executed and compared with integer arithmetic at 8- and 16-bit word sizes (53 u8 primes, several u16 primes, single- and split-word variants); the deployed 32/64/128/255-bit fields are executed on a limb-boundary lattice cross product and random pairs and compared with BigUint; conversions, equality/hash/encoding consistency, conditional select/negate and root orders are checked on the same runs.",
         "level_note": "Trusted: BigUint/u128 arithmetic, the const-fn parameter derivation of the scaled-down instantiations (self-checked by residue(montgomery(a)) == a). Deployed-prime coverage is a lattice plus sampling, not exhaustive.",
     },
+    "C14": {
+        "level": "exploration",
+        "rule": "gadget level: ParallelSumMultithreaded<F, SpyMul>::eval_poly vs ParallelSum<F, Mul>::eval_poly on explicit rayon pools of 1..32 threads, chunk counts "
+                "{1, 2, threads-1, threads, 10*threads, 200/1000, random} x calls x input styles, each repeated with seeded jitter inside the fold body; the chunk->fold-state partition "
+                "of every call is OBSERVED through the spy; Prio3 level: SumVec/Histogram/MultihotCountVec multithreaded vs serial transcripts (public share, input shares, verifier shares, "
+                "verifier message, output shares, result) byte-compared per pool size; distinct = distinct (configuration, observed partition) pairs + Prio3 configurations; "
+                "aux: Miri (tree borrows, data-race detector, seeded schedules) on a tiny gadget workload, ThreadSanitizer in the thorough tier",
+        "assumptions": COMMON_ASSUMPTIONS + ["the crate has no unsafe code: race detectors are a backstop; the deciding oracle is byte equality across the observed partitions",
+                                             "schedules are those rayon produced on this machine under load/jitter plus Miri's seeded schedules"],
+        "min_counters": {"configs_more_chunks_than_threads": 8, "gadget_distinct_partitions_total": 50, "prio3_transcript_messages_compared": 1000},
+        "min_ratios": [("configs_more_chunks_than_threads_with_ge2_partitions", "configs_more_chunks_than_threads", 0.5)],
+        "aux": True,
+        "technique": "differential runtime monitoring (multithreaded vs serial bytes) with a spy gadget observing the work-stealing partition, stress/jitter across thread-pool shapes; Miri data-race detection with seeded schedules; TSan (thorough)",
+        "level_text": "Every multithreaded evaluation is compared byte for byte with the serial one while a harness-side spy inner gadget records which fold state and thread evaluated which chunk, so the evidence shows how many distinct work-stealing partitions were actually exercised per configuration; the same gadget code runs under Miri with many scheduler seeds and (thorough) ThreadSanitizer.",
+        "level_note": "Only schedules produced in these runs are covered; anti-vacuity requires >= 2 distinct partitions in at least half of the configurations with more chunks than threads.",
+    },
     "C17": {
         "level": "exploration",
         "rule": "pairs of distinct measurements (incl. extremes) sharded with identical scripted randomness, nonce and context on sampled Prio3 configurations "
@@ -99,5 +115,70 @@ def watchdog(pid, tier):
     return w[tier]
 
 
+def _miri(seeds, args, env, timeout):
+    e = dict(env)
+    e["MIRIFLAGS"] = ("-Zmiri-tree-borrows -Zmiri-ignore-leaks -Zmiri-disable-isolation "
+                      f"-Zmiri-permissive-provenance -Zmiri-many-seeds={seeds}")
+    cwd = os.path.join(os.path.dirname(os.path.dirname(os.path.abspath(__file__))), "harness", "miri_c14")
+    t0 = time.time()
+    try:
+        p = subprocess.run(["cargo", "+nightly", "miri", "run", "--offline", "--"] + args, cwd=cwd, env=e,
+                           stdout=subprocess.PIPE, stderr=subprocess.STDOUT, text=True, timeout=timeout)
+        out, rc = p.stdout, p.returncode
+    except subprocess.TimeoutExpired as ex:
+        out, rc = (ex.stdout.decode(errors="replace") if isinstance(ex.stdout, bytes) else (ex.stdout or "")), "timeout"
+    return out, rc, time.time() - t0
+
+
 def run_aux(pid, tier, seed, env):
-    return None
+    """Auxiliary sanitizer steps. C14: Miri (always), ThreadSanitizer (thorough, best effort)."""
+    if pid != "C14":
+        return None
+    res = {"violations": [], "inconclusive": [], "evidence": {}}
+    base = (seed * 1000) % 100000
+    plans = [("0..8" if tier == "quick" else "0..24", ["5", "3"])]
+    if tier == "thorough":
+        plans += [("0..12", ["2", "4"]), ("0..12", ["6", "2"]), ("0..8", ["1", "2"]), ("0..8", ["4", "3", "prio3"])]
+    ok_total = 0
+    for seeds, args in plans:
+        lo, hi = seeds.split("..")
+        seeds = f"{base + int(lo)}..{base + int(hi)}"
+        out, rc, wall = _miri(seeds, args, env, 3600)
+        oks = sum(1 for l in out.splitlines() if l.startswith("OK "))
+        ok_total += oks
+        bad = [l for l in out.splitlines() if ("Undefined Behavior" in l or "Data race" in l or "data race" in l or l.startswith("MISMATCH"))]
+        if bad:
+            cls = "data-race" if any("ace" in b for b in bad) else ("mismatch" if any(b.startswith("MISMATCH") for b in bad) else "undefined-behaviour")
+            res["violations"].append({"signature": f"C14|miri|{cls}", "what": f"Miri reported {cls} in the multithreaded gadget workload: {bad[0].strip()[:200]}",
+                                      "witness": {"args": args, "seeds": seeds, "log_tail": out[-3000:]}, "count": len(bad), "shard": 0})
+        elif rc != 0 or oks == 0:
+            res["inconclusive"].append(f"miri run failed (rc={rc}, ok={oks}) args={args}: {out[-400:]!r}")
+        res["evidence"].setdefault("miri_runs", []).append({"args": args, "seeds": seeds, "interleavings_ok": oks, "wall_s": round(wall, 1)})
+    res["evidence"]["miri_interleavings_ok"] = ok_total
+    if tier == "thorough":
+        cwd = os.path.join(os.path.dirname(os.path.dirname(os.path.abspath(__file__))), "harness", "miri_c14")
+        e = dict(env)
+        e["RUSTFLAGS"] = "-Zsanitizer=thread"
+        e["CARGO_TARGET_DIR"] = "target-tsan"
+        t0 = time.time()
+        try:
+            b = subprocess.run(["cargo", "+nightly", "build", "-Zbuild-std", "--target", "x86_64-unknown-linux-gnu", "--offline"],
+                               cwd=cwd, env=e, stdout=subprocess.PIPE, stderr=subprocess.STDOUT, text=True, timeout=2400)
+            built = b.returncode == 0
+        except subprocess.TimeoutExpired:
+            built = False
+        tsan = {"built": built, "build_s": round(time.time() - t0, 1), "runs": 0, "reports": 0}
+        if built:
+            exe = os.path.join(cwd, "target-tsan", "x86_64-unknown-linux-gnu", "debug", "miri_c14")
+            e2 = dict(env)
+            e2["TSAN_OPTIONS"] = "halt_on_error=0 exitcode=66"
+            for (c, t, extra) in [(40, 8, "prio3"), (7, 16, ""), (3, 2, ""), (200, 4, "prio3"), (16, 16, "")] * 4:
+                r = subprocess.run([exe, str(c), str(t)] + ([extra] if extra else []), env=e2, stdout=subprocess.PIPE, stderr=subprocess.STDOUT, text=True, timeout=600)
+                tsan["runs"] += 1
+                n = r.stdout.count("WARNING: ThreadSanitizer")
+                tsan["reports"] += n
+                if n or "MISMATCH" in r.stdout:
+                    res["violations"].append({"signature": "C14|tsan|" + ("data-race" if n else "mismatch"), "what": "ThreadSanitizer report / mismatch in the multithreaded gadget workload",
+                                              "witness": {"args": [c, t, extra], "log_tail": r.stdout[-3000:]}, "count": max(n, 1), "shard": 0})
+        res["evidence"]["tsan"] = tsan
+    return res
